@@ -235,7 +235,7 @@ const (
 var UnknownAttrsExt = []Attr{{"idx", "7"}, {"ID", "77"}, {"refs", "1 2 3"}, {"timestamp2", "2009-01-01T00:00:00Z"}, {"la", "1.5"}, {"foo", ""}}
 
 // NumUnknownKidsExt is the number of shapes understood by UnknownKidExt.
-const NumUnknownKidsExt = 4
+const NumUnknownKidsExt = 6
 
 // UnknownKidExt returns an unknown element whose name is close to a known
 // one (never equal to an OSM element name in any letter case).
@@ -248,8 +248,25 @@ func UnknownKidExt(which int) *Elem {
 		e = E("tags", []Attr{{"k", "plural"}, {"v", "not a tag"}})
 	case 2:
 		e = E("ndx", []Attr{{"ref", "12345"}}, T("idx", "9"), T("texts", "t"))
-	default:
+	case 3:
 		e = T("ids", "31337")
+	case 4:
+		// an unknown wrapper around elements with KNOWN names: what is inside an
+		// unknown element is unknown too, whatever it is called
+		e = E("history", []Attr{{"of", "x"}},
+			E("nd", []Attr{{"ref", "900"}, {"version", "3"}, {"lat", "1"}, {"lon", "2"}}),
+			E("tag", []Attr{{"k", "wrapped"}, {"v", "not a tag"}}),
+			E("member", []Attr{{"type", "node"}, {"ref", "901"}, {"role", "wrapped"}}),
+			E("update", []Attr{{"index", "0"}, {"version", "9"}, {"timestamp", "2012-01-01T00:00:00Z"}}))
+	default:
+		// ... two levels down, and with the children a discussion / a note would hold
+		e = E("meta", nil, E("inner", nil,
+			E("nd", []Attr{{"ref", "902"}}),
+			E("tag", []Attr{{"k", "deep"}, {"v", "x"}}),
+			E("comment", []Attr{{"uid", "5"}, {"user", "u"}, {"date", "2012-01-01T00:00:00Z"}}, T("text", "wrapped")),
+			E("member", []Attr{{"type", "way"}, {"ref", "903"}, {"role", "deep"}}, E("nd", []Attr{{"lat", "1"}, {"lon", "2"}}))))
+		// (no element the streaming scanner returns as an object - node, way, relation,
+		// changeset, note, user, bounds: it finds those at any depth by design)
 	}
 	e.Walk(func(x *Elem) { x.Unknown = true })
 	return e
